@@ -152,7 +152,7 @@ func Report(p Prop, plan []Batch, tier string, seed int64, results []Result, nre
 		sigs = append(sigs, s)
 	}
 	sort.Strings(sigs)
-	replayDir := filepath.Join(VerifDir(), "evidence", "replays")
+	replayDir := filepath.Join(EvidenceDir(), "replays")
 	nviol := 0
 	var knownHit []string
 	var lines []string
@@ -233,9 +233,9 @@ func Report(p Prop, plan []Batch, tier string, seed int64, results []Result, nre
 	}
 	ev := Evidence{PropertyID: id, Tier: tier, Seed: seed, Level: p.Level(), Coverage: cov,
 		Assumptions: p.Assumptions(), WallS: wall.Seconds(), Violations: nviol}
-	os.MkdirAll(filepath.Join(VerifDir(), "evidence"), 0755)
+	os.MkdirAll(EvidenceDir(), 0755)
 	jb, _ := json.MarshalIndent(ev, "", " ")
-	os.WriteFile(filepath.Join(VerifDir(), "evidence", id+".json"), jb, 0644)
+	os.WriteFile(filepath.Join(EvidenceDir(), id+".json"), jb, 0644)
 
 	for _, l := range lines {
 		fmt.Println(l)
